@@ -116,3 +116,69 @@ for _nd, _tiers in ((2, ('quick', 'thorough')), (3, ('thorough',))):
       assumptions=_TAPE_ASSUME + ['DbGrid objects built by the real default constructor + gridDefine; cos/sin uninterpreted'],
       stubs=_TAPE_STUBS + ['Db::_serialize, Db::_deserialize: return true without reading or writing (Db part outside the kernel)',
                          'Db::_clear: empty (locator tables not built: the ELoc enumeration needs static constructors)'])
+
+# ---- C08.e Faults, C08.d MeshETurbo header (harness/C08/faults_mesh.cpp)
+K('C08.e.faults', property='C08', engine='symex', harness='C08/faults_mesh.cpp', entry='k_faults',
+  tus=['src/Faults/Faults.cpp', 'src/Basic/PolyLine2D.cpp', 'src/Basic/AStringable.cpp', 'src/Basic/ASerializable.cpp', 'src/Basic/Utilities.cpp'],
+  defines={'quick': {'VF_NV': 2, 'VF_NF': 2}, 'thorough': {'VF_NV': 4, 'VF_NF': 3, 'VF_TAPE_CAP': 80}},
+  bounds={'quick': '2 faults of 2 vertices each; coordinates arbitrary reals (TEST included)', 'thorough': '3 faults of 4 vertices each'},
+  timeout_ms={'quick': 60000, 'thorough': 300000}, validate={'quick': 20, 'thorough': 40}, validate_doubles='dyadic',
+  what='Faults::_serialize -> Faults::_deserialize (with PolyLine2D::_serialize/_deserialize through the virtual serialize/deserialize, addFault): '
+       'records consumed in order and type, both return true, number of faults and every vertex of the reloaded object agree, re-serialising gives the same records',
+  out='the text layer (15 digits), file open / class tag check',
+  assumptions=_TAPE_ASSUME + ['faults built by the real PolyLine2D constructor and addFault; loaded into a default-constructed object'],
+  stubs=_TAPE_STUBS + ['messerr: empty'])
+_MESH_TUS = ['src/Mesh/MeshETurbo.cpp', 'src/Mesh/AMesh.cpp', 'src/Mesh/Delaunay.cpp', 'src/Basic/Grid.cpp', 'src/Basic/Indirection.cpp', 'src/Basic/Rotation.cpp',
+             'src/Geometry/GeometryHelper.cpp', 'src/Matrix/MatrixSquareGeneral.cpp', 'src/Matrix/AMatrixSquare.cpp', 'src/Matrix/MatrixRectangular.cpp',
+             'src/Matrix/AMatrixDense.cpp', 'src/Matrix/AMatrix.cpp', 'src/Basic/AStringable.cpp', 'src/Basic/ASerializable.cpp',
+             'src/Basic/Utilities.cpp', 'src/Basic/VectorHelper.cpp']
+for _nd, _tiers in ((2, ('quick', 'thorough')), (3, ('thorough',))):
+    K('C08.d.meshturbo.%d' % _nd, property='C08', engine='symex', harness='C08/faults_mesh.cpp', entry='k_meshturbo', tus=_MESH_TUS,
+      defines={'all': {'VF_NDIM': _nd}}, tiers=_tiers,
+      bounds={'quick': 'space dimension %d; nx in [2, 2^10], dx > 0, x0 arbitrary reals, unrotated grid, polarisation flag and storing mode arbitrary, no mask' % _nd},
+      timeout_ms={'quick': 60000, 'thorough': 300000}, validate={'quick': 20, 'thorough': 40}, validate_doubles='dyadic',
+      what='MeshETurbo::_serialize -> MeshETurbo::_deserialize (with initFromGridByMatrix, Grid::resetFromVector, Grid::setRotationByVector, '
+           'Rotation::setMatrixDirectVec, Indirection::setMode): records consumed in order and type, both return true, grid geometry, extension, '
+           'polarisation, storing mode and mesh / apex counts of the reloaded mesh agree, re-serialising gives the same records',
+      out='masks on meshes / nodes (Indirection tables), rotated grids, the text layer, file open / class tag check',
+      symex=_TRIG,
+      assumptions=_TAPE_ASSUME + ['mesh built by the real MeshETurbo(mode) constructor + initFromGridByMatrix with the identity rotation matrix; loaded into a default-constructed mesh'],
+      stubs=_TAPE_STUBS + ['messerr: empty'])
+
+# ---- C08.f Vario numeric block through the line-structured tape (harness/C08/tape2.h, harness/C08/vario.cpp)
+_TAPE2_STUBS = [
+    'ASerializable::_recordWrite<int>, <double>, <String>: push one typed cell (String: a cell without content) and, when the title is not empty, a line break',
+    'ASerializable::_recordWriteVec<int>, <double>: [line break when the title is not empty], the elements, a line break; _commentWrite: a line break',
+    'ASerializable::_recordRead<int> / <double> / <String>: skip line breaks, pop one cell of a compatible type (the rest of the line stays); anything else is a mismatch (asserted)',
+    'ASerializable::_recordReadVec<int>, <double>(n): the next line holding at least one value (the rest of the current line counts) must hold exactly n values of a '
+    'compatible type (asserted); consumed with its line break',
+    'std::ostream / std::istream arguments: references to raw storage, never dereferenced',
+    'strlen (solver build only): byte loop, so that the String temporaries built from title literals are executed',
+]
+_VARIO_TUS = ['src/Variogram/Vario.cpp', 'src/Variogram/AVario.cpp', 'src/Variogram/VarioParam.cpp', 'src/Variogram/DirParam.cpp', 'src/Space/SpaceRN.cpp',
+              'src/Space/ASpace.cpp', 'src/Space/ASpaceObject.cpp', 'src/Enum/Enums.cpp', 'src/Matrix/MatrixSquareGeneral.cpp', 'src/Matrix/AMatrixSquare.cpp',
+              'src/Matrix/MatrixRectangular.cpp', 'src/Matrix/AMatrixDense.cpp', 'src/Matrix/AMatrix.cpp', 'src/Basic/AStringable.cpp', 'src/Basic/ASerializable.cpp',
+              'src/Basic/Utilities.cpp', 'src/Basic/VectorHelper.cpp']
+_VARIO_STUBS = _TAPE2_STUBS + [
+    'ASpaceObject constructors / assignment / destructor / getNDim: the space context is one integer cell (the real code clones a SpaceRN through clone() + dynamic_cast)',
+    'ECalcVario::ECalcVario(), AVario::AVario(): the UNDEFINED value is written directly (the static ECalcVario objects are filled by static constructors, which kernels do not run); '
+    'AVario::setCalculByName: stores VARIOGRAM (the reader only ever asks for "vg")',
+    'messerr, mesArg: empty',
+]
+for _name, _defs, _tiers, _b in (
+        ('sym', {'VF_ASYM': 0, 'VF_GRID': 0, 'VF_NDIR': 2}, ('quick', 'thorough'), 'symmetric calculation, 2 directions with a tolerance on the angle'),
+        ('grid', {'VF_ASYM': 0, 'VF_GRID': 1, 'VF_NDIR': 1}, ('quick', 'thorough'), 'symmetric calculation, 1 direction defined by grid increments in [-1000, 1000]'),
+        ('asym', {'VF_ASYM': 1, 'VF_GRID': 0, 'VF_NDIR': 1}, ('quick', 'thorough'), 'asymmetric calculation (covariance: 2*npas+1 entries), 1 direction'),
+        ('undef', {'VF_ASYM': 0, 'VF_GRID': 0, 'VF_NDIR': 1, 'VF_WITH_UNDEFINED': 1}, ('quick', 'thorough'), 'symmetric calculation, 1 direction, weights / distances / values may be undefined (TEST)'),
+        ('sym.2var', {'VF_ASYM': 0, 'VF_GRID': 0, 'VF_NDIR': 1, 'VF_NVAR': 2}, ('thorough',), 'symmetric calculation, 2 variables, 1 direction')):
+    K('C08.f.vario.' + _name, property='C08', engine='symex', harness='C08/vario.cpp', entry='k_vario', tus=_VARIO_TUS,
+      defines={'all': dict({'VF_NDIM': 2, 'VF_NVAR': 1, 'VF_NPAS': 2}, **_defs)}, tiers=_tiers,
+      bounds={'quick': 'space dimension 2, %d variable(s), 2 lags; %s; every parameter and result an arbitrary real / int' % (_defs.get('VF_NVAR', 1), _b)},
+      timeout_ms={'quick': 60000, 'thorough': 300000}, validate={'quick': 20, 'thorough': 40}, validate_doubles='dyadic',
+      what='Vario::_serialize -> Vario::_deserialize (with the DirParam constructor, VarioParam::addDir, internalDirectionResize, _directionResize, setVars, '
+           'set/getSw/Hh/GgByIndex): records consumed line by line as the text readers do, both return true, scale, variances, lag definitions, direction vectors / '
+           'grid increments, and the weights, distances and values of every lag of the reloaded variogram agree, re-serialising gives the same records',
+      out='fields absent from the file format (dates, faults, breaks, bench / cylinder radius, date index, means, variable names content); the text layer; file open / class tag check',
+      assumptions=['a neutral file is modelled as the sequence of typed records and line breaks (15 digits, NA token not encoded)',
+                   'original built by the real constructors; calculation type set as setCalcul does (value + asymmetry flag); loaded into Vario(VarioParam())'],
+      stubs=_VARIO_STUBS)
